@@ -37,37 +37,37 @@ def twin_args(ctx, quick, thorough):
 
 
 def run_c01(ctx):
-    return [run_olh(ctx, 'twin', twin_args(ctx, ['-histories', '150', '-blocks', '16', '-maxtxs', '8'], ['-histories', '600', '-blocks', '30', '-maxtxs', '10'])),
-            run_olh(ctx, 'shell', twin_args(ctx, ['-histories', '80', '-blocks', '14'], ['-histories', '300', '-blocks', '24']))]
+    return [run_olh(ctx, 'twin', twin_args(ctx, ['-histories', '150', '-blocks', '16', '-maxtxs', '8'], ['-histories', '2000', '-blocks', '30', '-maxtxs', '10'])),
+            run_olh(ctx, 'shell', twin_args(ctx, ['-histories', '80', '-blocks', '14'], ['-histories', '800', '-blocks', '24']))]
 
 
 def run_c02(ctx):
-    return [run_olh(ctx, 'ledger', twin_args(ctx, ['-histories', '300', '-blocks', '14', '-maxtxs', '8'], ['-histories', '1500', '-blocks', '24', '-maxtxs', '10'])),
-            run_olh(ctx, 'ledger-direct', twin_args(ctx, ['-histories', '200', '-blocks', '14', '-maxtxs', '8'], ['-histories', '1000', '-blocks', '24', '-maxtxs', '10']))]
+    return [run_olh(ctx, 'ledger', twin_args(ctx, ['-histories', '300', '-blocks', '14', '-maxtxs', '8'], ['-histories', '4000', '-blocks', '24', '-maxtxs', '10'])),
+            run_olh(ctx, 'ledger-direct', twin_args(ctx, ['-histories', '200', '-blocks', '14', '-maxtxs', '8'], ['-histories', '3000', '-blocks', '24', '-maxtxs', '10']))]
 
 
 def run_c18(ctx):
-    return [run_olh(ctx, 'nocrash', twin_args(ctx, ['-seeds', '12', '-fuzz', '150', '-parallel', '12'], ['-seeds', '120', '-fuzz', '400', '-parallel', '14']))]
+    return [run_olh(ctx, 'nocrash', twin_args(ctx, ['-seeds', '12', '-fuzz', '150', '-parallel', '12'], ['-seeds', '400', '-fuzz', '600', '-parallel', '14']))]
 
 
 def run_c05(ctx):
-    return [run_olh(ctx, 'replay', twin_args(ctx, ['-histories', '200', '-blocks', '16', '-maxtxs', '8'], ['-histories', '800', '-blocks', '30', '-maxtxs', '10'])),
-            run_olh(ctx, 'shell', twin_args(ctx, ['-histories', '80', '-blocks', '14'], ['-histories', '300', '-blocks', '24']))]
+    return [run_olh(ctx, 'replay', twin_args(ctx, ['-histories', '200', '-blocks', '16', '-maxtxs', '8'], ['-histories', '2500', '-blocks', '30', '-maxtxs', '10'])),
+            run_olh(ctx, 'shell', twin_args(ctx, ['-histories', '80', '-blocks', '14'], ['-histories', '800', '-blocks', '24']))]
 
 
 def run_c06(ctx):
-    return [run_olh(ctx, 'dropfailed', twin_args(ctx, ['-histories', '150', '-blocks', '16', '-maxtxs', '8'], ['-histories', '600', '-blocks', '30', '-maxtxs', '10'])),
-            run_olh(ctx, 'shell', twin_args(ctx, ['-histories', '80', '-blocks', '14'], ['-histories', '300', '-blocks', '24']))]
+    return [run_olh(ctx, 'dropfailed', twin_args(ctx, ['-histories', '150', '-blocks', '16', '-maxtxs', '8'], ['-histories', '2000', '-blocks', '30', '-maxtxs', '10'])),
+            run_olh(ctx, 'shell', twin_args(ctx, ['-histories', '80', '-blocks', '14'], ['-histories', '800', '-blocks', '24']))]
 
 
 def run_c07(ctx):
-    return [run_olh(ctx, 'inject', twin_args(ctx, ['-histories', '180', '-blocks', '18', '-maxtxs', '8'], ['-histories', '800', '-blocks', '30', '-maxtxs', '10'])),
-            run_olh(ctx, 'shell', twin_args(ctx, ['-histories', '80', '-blocks', '14'], ['-histories', '300', '-blocks', '24']))]
+    return [run_olh(ctx, 'inject', twin_args(ctx, ['-histories', '180', '-blocks', '18', '-maxtxs', '8'], ['-histories', '2500', '-blocks', '30', '-maxtxs', '10'])),
+            run_olh(ctx, 'shell', twin_args(ctx, ['-histories', '80', '-blocks', '14'], ['-histories', '800', '-blocks', '24']))]
 
 
 def run_c08(ctx):
-    return [run_olh(ctx, 'crash', twin_args(ctx, ['-histories', '100', '-blocks', '14', '-maxtxs', '8'], ['-histories', '400', '-blocks', '30', '-maxtxs', '10'])),
-            run_olh(ctx, 'shell', twin_args(ctx, ['-histories', '80', '-blocks', '14'], ['-histories', '300', '-blocks', '24']))]
+    return [run_olh(ctx, 'crash', twin_args(ctx, ['-histories', '100', '-blocks', '14', '-maxtxs', '8'], ['-histories', '1200', '-blocks', '30', '-maxtxs', '10'])),
+            run_olh(ctx, 'shell', twin_args(ctx, ['-histories', '80', '-blocks', '14'], ['-histories', '800', '-blocks', '24']))]
 
 
 def run_c20(ctx):
